@@ -76,6 +76,7 @@ struct Mon {
   std::string bytes;
   cctz::time_zone A, B;
   long serial = 0;
+  long bulk_n = 0;
   Mon(sup::Ctx& c, const ZoneEnt& z, uint64_t seed, bool th) : ctx(c), ze(z), rng(seed, sup::fnvs(z.name)), thorough(th) {}
   std::string zid() const { return ze.cls + "/" + ze.name; }
 
@@ -354,6 +355,48 @@ struct Mon {
     }
   }
 
+  // A long-lived process: n names that fail and n that load, all first; then every one again (data meanwhile available under
+  // the failed names, withdrawn from the loaded ones). Whatever the cache does with many entries - bounded tables, eviction,
+  // rehashing - must stay invisible: same verdict, equal zones, no further call of the data source.
+  void bulk_cache(long n) {
+    std::string base = "V/H14bulk/" + ze.name + "/";
+    auto calls = [] { return zsrc::st().factory_calls.load(); };
+    std::vector<cctz::time_zone> first(static_cast<size_t>(n));
+    ctx.set_case("zone=%s op=bulk-cache n=%ld", zid().c_str(), n);
+    for (long i = 0; i < n; ++i) {
+      std::string ok = base + "ok" + std::to_string(i), bad = base + (i % 2 ? "missing" : "garbage") + std::to_string(i);
+      zsrc::put(ok, bytes);
+      if (i % 2 == 0) zsrc::put(bad, "TZif2 not really");
+      cctz::time_zone f = cctz::fixed_time_zone(cctz::seconds(60));
+      bool a = cctz::load_time_zone(bad, &f);
+      bool b = cctz::load_time_zone(ok, &first[static_cast<size_t>(i)]);
+      if (a || !(f == cctz::utc_time_zone()) || !b) {
+        ctx.viol("C14", "bulk:first-load", "zone=" + zid() + " i=" + std::to_string(i));
+        return;
+      }
+      zsrc::erase(ok);
+      zsrc::put(bad, bytes);
+    }
+    long c0 = calls();
+    long bad_now_ok = 0, bad_not_utc = 0, ok_unequal = 0;
+    std::string w;
+    for (long i = 0; i < n; ++i) {
+      std::string ok = base + "ok" + std::to_string(i), bad = base + (i % 2 ? "missing" : "garbage") + std::to_string(i);
+      cctz::time_zone f = cctz::fixed_time_zone(cctz::seconds(60)), g;
+      if (cctz::load_time_zone(bad, &f)) { if (!bad_now_ok++) w = bad; }
+      if (!(f == cctz::utc_time_zone())) { if (!bad_not_utc++) w = bad; }
+      if (!cctz::load_time_zone(ok, &g) || !(g == first[static_cast<size_t>(i)])) { if (!ok_unequal++) w = ok; }
+      zsrc::erase(bad);
+    }
+    long later = calls() - c0;
+    ctx.stat("C14.evaluations", 4 * n);
+    ctx.stat("C14.bulk_cache_names", 2 * n);
+    if (bad_now_ok) ctx.viol("C14", "bulk:failed-name-later-succeeds", "zone=" + zid() + " " + std::to_string(bad_now_ok) + " of " + std::to_string(n) + " names, first " + w);
+    if (bad_not_utc) ctx.viol("C14", "bulk:failed-name-not-utc", "zone=" + zid() + " " + std::to_string(bad_not_utc) + " names, first " + w);
+    if (ok_unequal) ctx.viol("C14", "bulk:repeat-load-unequal", "zone=" + zid() + " " + std::to_string(ok_unequal) + " names, first " + w);
+    if (later) ctx.viol("C14", "bulk:repeat-load-consults-data-source", "zone=" + zid() + " factory calls during the second pass: " + std::to_string(later));
+  }
+
   void run() {
     if (!zsrc::read_file(ze.path, &bytes) || !Z.init(bytes)) {
       ctx.note("cannot use " + ze.path + ": " + Z.err);
@@ -376,6 +419,7 @@ struct Mon {
     random_histories();
     hostile_variants();
     cache_behaviour();
+    if (bulk_n > 0) bulk_cache(bulk_n);
     ctx.sample("C14", "zone=" + zid() + ": " + std::to_string(g_h.stored_states.size() - st0) + " distinct hint states stored, " +
                           std::to_string(g_h.hit_states.size() - ht0) + " answered from the hint; e.g. after lookup(t) on copy A, lookup(t+1) hit the hint and equalled copy B's answer", 3);
   }
@@ -407,6 +451,7 @@ int main(int argc, char** argv) {
   cctz_verif_hint_hook = hint_hook;
   return sup::supervise(static_cast<long>(zones.size()), opt, [&](long c, sup::Ctx& ctx) {
     Mon m(ctx, zones[c], seed, thorough);
+    m.bulk_n = (c % 64 == 0) ? (thorough ? 20000 : 1500) : 0;
     m.run();
   });
 }
